@@ -1,5 +1,5 @@
 From Coq Require Import ExtrOcamlBasic.
-Require Import CV.Model.PyPrelude CV.Spec.BV CV.Gen.BvConcrete CV.Model.Ast CV.Model.Build CV.Model.Solve.
+Require Import CV.Model.PyPrelude CV.Spec.BV CV.Gen.BvConcrete CV.Model.Ast CV.Model.Build CV.Model.Solve CV.Model.Rewrite.
 Extraction Language OCaml.
 Extraction "bvmodel.ml" Build.mk Ast.eval Ast.eval_op Ast.symbolic Ast.depth Ast.elen
   bvv_signed bvv___invert__ bvv___neg__
@@ -9,4 +9,6 @@ Extraction "bvmodel.ml" Build.mk Ast.eval Ast.eval_op Ast.symbolic Ast.depth Ast
   bvv___lshift__ bvv___rshift__ bvv___rlshift__ bvv___rrshift__ bvv___eq__ bvv___ne__
   bv_ULT bv_ULE bv_UGT bv_UGE bv_SLT bv_SLE bv_SGT bv_SGE bv_SDiv bv_SMod bv_LShR
   bv_RotateLeft bv_RotateRight bv_Reverse bv_ZeroExt bv_SignExt bv_Extract bv_Concat
-  BV.bvreverse Solve.extrema Solve.enumerate Solve.cached_then_solve Solve.bounds.
+  BV.bvreverse Solve.extrema Solve.enumerate Solve.cached_then_solve Solve.bounds
+  Rewrite.subst Rewrite.replace Rewrite.canonicalize Rewrite.ite_cases Rewrite.ite_dict Rewrite.reverse_ite_cases
+  Rewrite.chop Rewrite.get_bytes Rewrite.excavate Ast.fvars.
